@@ -68,6 +68,8 @@ class Prop:
     shards = 16
     max_rounds = 4                # how many distinct root causes one run will chase
     floors = {}                   # class -> minimal fraction of evaluations (checked at the end)
+    fuzz_runs = 0                 # thorough tier: executions per coverage-guided (atheris) shard, 0 = not used
+    fuzz_shards = 4
 
     def strategy(self, tier):
         raise NotImplementedError
@@ -347,6 +349,8 @@ def write_evidence(prop, tier, seed, stats, violations, wall, findings, extra_as
     }
     if stats.exhaustive:
         cov['exhaustive'] = True
+    if getattr(stats, 'fuzz_executions', 0):
+        cov['coverage_guided_executions'] = stats.fuzz_executions
     ev = {
         'property_id': prop.id, 'tier': tier, 'seed': seed, 'level': prop.level,
         'coverage': cov,
@@ -420,6 +424,41 @@ def main_run(prop, tier, seed, examples=None, shard=None, out=None, jobs=None, r
                     violations.append(v)
                     print('VIOLATION property=%s replay=%s' % (prop.id, v['replay']))
                     print('  signature: %s' % v['signature'])
+    fuzz_exec = 0
+    if tier != 'quick' and (jobs or prop.shards) > 1 and prop.fuzz_runs and shard is None:
+        # coverage-guided amplification (atheris / libFuzzer over the same strategy and oracle)
+        fprocs = []
+        tmpd = os.path.join(ROOT, 'out', 'shards')
+        for i in range(prop.fuzz_shards):
+            o = os.path.join(tmpd, '%s-fuzz-%d-%d.json' % (prop.id, os.getpid(), i))
+            cmd = [sys.executable, '-B', '-m', 'vf.fuzz', prop.id, '--runs', str(prop.fuzz_runs), '--seed',
+                   str(seed * 100 + i + 1), '--out', o]
+            fprocs.append((o, subprocess.Popen(cmd, cwd=ROOT, env=dict(os.environ), stdout=subprocess.DEVNULL,
+                                               stderr=subprocess.DEVNULL)))
+        for o, p in fprocs:
+            p.wait()
+            if not os.path.exists(o):
+                print('NOTE fuzz shard produced no result (rc=%s)' % p.returncode)
+                continue
+            with open(o) as f:
+                d = json.load(f)
+            os.unlink(o)
+            if d.get('error'):
+                print('NOTE coverage-guided tier skipped: %s' % d['error'])
+                continue
+            stats.merge_dict(d['stats'])
+            fuzz_exec += d.get('fuzz_executions', 0)
+            seen = {v['signature'] for v in violations}
+            for v in d['violations']:
+                if v['signature'].startswith('HARNESS:'):
+                    print('NOTE fuzz harness exception: %s' % v['signature'])
+                    continue
+                if v['signature'] not in seen:
+                    seen.add(v['signature'])
+                    violations.append(v)
+                    print('VIOLATION property=%s replay=%s' % (prop.id, v['replay']))
+                    print('  signature: %s' % v['signature'])
+    stats.fuzz_executions = fuzz_exec
     if tier != 'quick' and (jobs or prop.shards) > 1:
         stats.exhaustive = all_exhaustive and stats.enumerated > 0
     wall = time.time() - t0
